@@ -68,16 +68,19 @@ Record st := mkSt {
   g_ans : list ans;                  (* answers pushed to top_out *)
   g_tretr : list msg;                (* responses retrieved from top_out by the environment *)
   g_bretr : list msg;                (* bottom requests retrieved from bot_out *)
-  g_qretr : list treq                (* translation requests retrieved from tr_out *)
+  g_qretr : list treq;               (* translation requests retrieved from tr_out *)
+  g_bdel : list msg;                 (* memory responses whose Deliver was accepted *)
+  g_trcons : list trsp;              (* translation replies taken out of tr_in (used or dropped) *)
+  g_bcons : list msg                 (* memory responses taken out of bot_in (used or dropped) *)
 }.
 
 #[export] Instance eta_st : Settable _ := settable! mkSt
   <cfg; flushing; txs; inflight; top_in; top_out; bot_in; bot_out; tr_in; tr_out; ctl_in; ctl_out;
    next_tid; next_bid; crashed; g_deliv; g_seen; g_treq; g_trdel; g_fwd; g_disc; g_idisc; g_ans;
-   g_tretr; g_bretr; g_qretr>.
+   g_tretr; g_bretr; g_qretr; g_bdel; g_trcons; g_bcons>.
 
 Definition init (c : config) : st :=
-  mkSt c false [] [] [] [] [] [] [] [] [] [] 2000000 1000000 false [] [] [] [] [] [] [] [] [] [] [].
+  mkSt c false [] [] [] [] [] [] [] [] [] [] 2000000 1000000 false [] [] [] [] [] [] [] [] [] [] [] [] [] [].
 
 (** akita buffers *)
 Definition room {A} (cap : nat) (b : list A) : bool := Nat.ltb (length b) cap.
@@ -205,7 +208,7 @@ Definition parse_translation (s : st) : st * bool :=
     | [] => (s, false)
     | rsp :: rest =>
       match split_first (fun t => q_id (t_q t) =? r_rspto rsp) (txs s) with
-      | None => (s <| tr_in := rest |>, true)
+      | None => (s <| tr_in := rest |> <| g_trcons := g_trcons s ++ [rsp] |>, true)
       | Some (a, t, b) =>
         (* translationRsp / translationDone are set before anything else *)
         let s1 := s <| txs := a ++ mkTx (t_reqs t) (t_q t) (Some rsp) :: b |> in
@@ -214,7 +217,8 @@ Definition parse_translation (s : st) : st * bool :=
         | r :: rs =>
           if negb (is_req r) then (s1 <| crashed := true |>, false)
           else if room (width (cfg s)) (bot_out s)
-          then (send_down s a t b r rs rsp <| tr_in := rest |>, true)
+          then (send_down s a t b r rs rsp <| tr_in := rest |>
+                                           <| g_trcons := g_trcons s ++ [rsp] |>, true)
           else (s1, false)
         end
       end
@@ -228,13 +232,14 @@ Definition respond (s : st) : st * bool :=
     if negb (is_rsp rsp) then (s <| crashed := true |>, false)
     else
       match split_first (fun p => m_id (snd p) =? m_rspto rsp) (inflight s) with
-      | None => (s <| bot_in := rest |>, true)
+      | None => (s <| bot_in := rest |> <| g_bcons := g_bcons s ++ [rsp] |>, true)
       | Some (a, p, b) =>
         if room (width (cfg s)) (top_out s) then
           let o := answer (fst p) rsp in
           (s <| top_out := top_out s ++ [o] |>
              <| inflight := a ++ b |>
              <| bot_in := rest |>
+             <| g_bcons := g_bcons s ++ [rsp] |>
              <| g_ans := g_ans s ++ [mkAns (fst p) (snd p) rsp o] |>, true)
         else (s, false)
       end
@@ -260,6 +265,7 @@ Definition handle_ctrl (s : st) : st * bool :=
       if room 1 (ctl_out s) then
         (s <| ctl_out := ctl_out s ++ [ctl_ack c] |>
            <| g_seen := g_seen s ++ map (fun m => (m, false)) (top_in s) |>
+           <| g_trcons := g_trcons s ++ tr_in s |> <| g_bcons := g_bcons s ++ bot_in s |>
            <| top_in := [] |> <| bot_in := [] |> <| tr_in := [] |>
            <| flushing := false |>
            <| ctl_in := rest |>, true)
@@ -308,7 +314,8 @@ Definition step (s : st) (e : ev) : st * obs :=
     else (s, OAcc false)
   | EDeliverBot m =>
     if room w (bot_in s)
-    then (s <| bot_in := bot_in s ++ [m] |>, OAcc true) else (s, OAcc false)
+    then (s <| bot_in := bot_in s ++ [m] |> <| g_bdel := g_bdel s ++ [m] |>, OAcc true)
+    else (s, OAcc false)
   | EDeliverTr r =>
     if room w (tr_in s)
     then (s <| tr_in := tr_in s ++ [r] |> <| g_trdel := g_trdel s ++ [r] |>, OAcc true)
@@ -384,3 +391,52 @@ Fixpoint mismatches_from (i : nat) (cs : list case) : list (nat * nat) :=
               end
   end.
 Definition mismatches := mismatches_from 0.
+
+(** ** A fair environment and a ranking function (for the liveness statements
+    of props/C16.v; read only ghost logs and buffers, never used by [step]). *)
+Definition answered_tr (s : st) (id : N) : bool := existsb (fun r => r_rspto r =? id) (g_trdel s).
+Definition answered_bot (s : st) (id : N) : bool := existsb (fun m => m_rspto m =? id) (g_bdel s).
+(** lookups / bottom requests the environment has retrieved and not yet answered *)
+Definition un_tr (s : st) : list treq := filter (fun q => negb (answered_tr s (q_id q))) (g_qretr s).
+Definition un_bot (s : st) : list msg := filter (fun b => negb (answered_bot s (m_id b))) (g_bretr s).
+
+Definition mem_rsp (b : msg) : msg :=
+  match m_kind b with
+  | KRead => mkMsg 0 KDataReady (m_dst b) P_BOT (m_id b) 0 0 0 [] [] 0
+  | _     => mkMsg 0 KWriteDone (m_dst b) P_BOT (m_id b) 0 0 0 [] [] 0
+  end.
+Definition tr_rsp (oracle : N -> N -> N) (q : treq) : trsp :=
+  mkTrsp (q_id q) (oracle (q_pid q) (q_vaddr q)).
+
+(** weight of everything that still has to move, by where it is *)
+Definition rank (s : st) : nat :=
+  (9 * length (top_in s) + 5 * length (waiting (txs s)) +
+   3 * length (tr_out s) + 2 * length (un_tr s) + length (tr_in s) +
+   4 * length (bot_out s) + 3 * length (un_bot s) + 2 * length (bot_in s) +
+   length (top_out s))%nat.
+
+(** one action of the fair environment: empty the outgoing ports, answer a lookup,
+    answer a memory request, otherwise let the translator tick *)
+Definition fair_next (oracle : N -> N -> N) (s : st) : ev :=
+  match top_out s, bot_out s, tr_out s with
+  | _ :: _, _, _ => ERetrTop
+  | [], _ :: _, _ => ERetrBot
+  | [], [], _ :: _ => ERetrTr
+  | [], [], [] =>
+    match un_tr s with
+    | q :: _ => if room (width (cfg s)) (tr_in s) then EDeliverTr (tr_rsp oracle q)
+                else ETick
+    | [] =>
+      match un_bot s with
+      | b :: _ => if room (width (cfg s)) (bot_in s) then EDeliverBot (mem_rsp b) else ETick
+      | [] => ETick
+      end
+    end
+  end.
+
+Fixpoint fair_evs (oracle : N -> N -> N) (n : nat) (s : st) : list ev :=
+  match n with
+  | O => []
+  | S n' => if Nat.eqb (rank s) 0 then []
+            else let e := fair_next oracle s in e :: fair_evs oracle n' (fst (step s e))
+  end.
